@@ -274,6 +274,20 @@ def looks_rounded(text):
     return False
 
 
+def has_float_literal(text):
+    return any("." in m.group(1) or "e" in m.group(1).lower() for m in _NUM.finditer(text))
+
+
+def exact_regime(kinds, text, outs):
+    """integer / binary-exact coefficients, every printed decimal exactly a binary64, and no float in the result when the
+    input has integers beyond ~2**33 (then mystic left sympy's exact Rational path - e.g. the _solve_nonlinear fallback -
+    and a 22-digit integer was rounded to a double: precision, not logic)"""
+    if not all(k in ("int", "dyadic") for k in kinds) or any(looks_rounded(c) for c in outs):
+        return False
+    big = any(len(m.group(1)) >= 10 for m in _NUM.finditer(text) if m.group(1).isdigit())
+    return not (big and any(has_float_literal(c) for c in outs))
+
+
 def opposite_pairs(text):
     """indices (i, j) of input lines with literally equal sides and opposite inequality (flip / flip(bounds))"""
     ls = [U.split_line(l) for l in U.lines_of(text)]
@@ -334,27 +348,23 @@ def empty_lines(cases_text):
 
 
 def cancellation_ratio(tl, names):
-    """for one text line: max over variables of (sum of |coefficient| over the occurrences of the variable) / |net coefficient|.
-    _simplify1 decides the direction by evaluating the ORIGINAL text at a random point in binary64; when the occurrences
-    of a variable cancel over more than ~2**53 the evaluation is noise (F19)"""
-    zero = {nm: Fr(0) for nm in names}
+    """for one linear text line: (size of the terms of both sides at the point (1,..,1)) / (largest net coefficient or net
+    constant of lhs - rhs).  _simplify1 decides the direction by evaluating the ORIGINAL text at a random point of
+    (-1,1)^n in binary64; when huge terms cancel identically (coefficients of one variable, or constants on both sides)
+    over more than ~2**53 that evaluation is noise and the direction is a coin (F19)"""
+    ones = {nm: Fr(1) for nm in names}
     try:
         c = [Fr(1)]
-        l0, ml0 = U.ev2(tl.l, zero, c); r0, mr0 = U.ev2(tl.r, zero, c)
-        worst = Fr(1)
-        for nm in names:
-            env = dict(zero); env[nm] = Fr(1)
-            l1, ml1 = U.ev2(tl.l, env, c); r1, mr1 = U.ev2(tl.r, env, c)
-            net = (l1 - r1) - (l0 - r0)
-            mag = (ml1 + mr1) - (ml0 + mr0)
-            if mag == 0:
-                continue
-            if net == 0:
-                continue               # the variable cancels completely: not this class (an `=` line then comes back empty, F17)
-            worst = max(worst, mag / abs(net))
-        return worst
-    except ZeroDivisionError:
-        return Fr(1)                    # a divisor vanishes at the origin: rational line, not this class
+        _, ml = U.ev2(tl.l, ones, c); _, mr = U.ev2(tl.r, ones, c)
+        it = U.translate_line(tl.text, names)
+    except (ZeroDivisionError, U.OutsideClass):
+        return Fr(1)
+    if it[0] != "lin":
+        return Fr(1)
+    net = max(abs(a - b) for a, b in zip(it[2], it[3]))
+    if net == 0:
+        return Fr(1)       # everything cancels: not this class (an `=` line then comes back empty, F17)
+    return (ml + mr) / net
 
 
 def boundaries(cases):
@@ -372,7 +382,7 @@ def known_classes(text, in_items, names, cases_text, out_items, exact):
     items = list(in_items)
     n = len(names)
     ratios = [cancellation_ratio(U.TextLine(l), names) for l in U.lines_of(text)]
-    if any(r >= 2 ** 20 for r in ratios):
+    if any(r >= 2 ** 40 for r in ratios):
         return [KF_CANCEL], items       # inside this class only the boundaries are required to be preserved (post_simplify)
     if opposite_pairs(text):
         keys.append(KF_OPPOSITE)
@@ -393,7 +403,7 @@ def known_classes(text, in_items, names, cases_text, out_items, exact):
                     out.append(it)
             return out
         chosen = None
-        for size in range(1, len(cand) + 1):
+        for size in range(0, len(cand) + 1):      # size 0: the empty line is spurious, nothing was lost
             for sel in itertools.combinations(cand, size):
                 e = drop(sel)
                 if U.dnf_equiv([U.canon_sys(c) for c in U.expand(e, n)], tout, 0 if exact else TOL):
@@ -401,8 +411,7 @@ def known_classes(text, in_items, names, cases_text, out_items, exact):
             if chosen is not None:
                 break
         if chosen is None:
-            dead = [i for i in cand if dead_equality(items[i])]
-            chosen = drop(dead or cand[:1])
+            chosen = drop([i for i in cand if dead_equality(items[i])])
         items = chosen
     return keys, items
 
@@ -517,8 +526,7 @@ def prep_simplify(rng, hist, stream_id):
     in_lines = U.lines_of(g["text"])
     in_items = [U.translate_line(l, names) for l in in_lines]          # generator is in class by construction
     in_tls = check_translation(in_lines, in_items, names, rng)
-    for l in in_lines:   # comparator / flip: text level models
-        want = [k for k in CMP_TEXT if k in l]
+    for l in in_lines:   # comparator(): the comparator mystic sees is the one the harness split the line at
         c = S.comparator(l)
         if U.CMP_NAME.get(c) != U.split_line(l)[1]:
             raise HarnessBug("comparator(%r) = %r" % (l, c))
@@ -531,7 +539,7 @@ def prep_simplify(rng, hist, stream_id):
     cases_text = [] if out is None else ([out] if isinstance(out, str) else list(out))
     rec = {"stream": "simplify", "id": stream_id, "gen": g, "in_lines": in_lines, "in_items": in_items, "in_tls": in_tls,
            "out": cases_text, "names": names, "lines": []}
-    exact = all(k in ("int", "dyadic") for k in g["kinds"]) and not any(looks_rounded(c) for c in cases_text)
+    exact = exact_regime(g["kinds"], g["text"], cases_text)
     rec["exact"] = exact
     try:
         out_lines = [U.lines_of(c) for c in cases_text]
@@ -747,7 +755,7 @@ def prep_solve(rng, hist, stream_id):
         return None
     rec = {"stream": "solve", "id": stream_id, "gen": g, "in_lines": in_lines, "in_items": in_items, "in_tls": in_tls,
            "out": out, "names": names, "lines": []}
-    rec["exact"] = g["kind"] in ("int", "dyadic") and not looks_rounded(out)
+    rec["exact"] = exact_regime([g["kind"]], g["text"], [out])
     try:
         out_lines = U.lines_of(out)
         out_items = [U.translate_line(l, names) for l in out_lines]
@@ -805,6 +813,7 @@ def post_solve(rec, replies, rng, hist, findings):
         findings.append(Finding("monitor", "solve/not-solved-form", "returned text is not a solved form: %r" % (rec["out"],), case))
         return False
     tol = 0 if exact else TOL
+    rk = U.rank([f[1:] for f in fi])      # (the generated systems are consistent: rank of the coefficient part)
     bad = None
     for _ in range(6):
         pt = [Fr(rng.randint(-20, 20), rng.choice([1, 2, 3])) for _ in range(n)]
@@ -817,17 +826,16 @@ def post_solve(rec, replies, rng, hist, findings):
                 bad = (pt, res); break
         if bad:
             break
-    rk = U.rank([f[1:] for f in fi])      # (the generated systems are consistent: rank of the coefficient part)
+    # F18: proportional equations with non-binary float coefficients: rounding noise in sympy's elimination leaves a spurious
+    # pivot; the 'solved form' then pins a free variable or (with further equations) is no solution at all. The same
+    # systems with integer / binary-exact coefficients are on the exact stream and fully checked.
+    redundant_float = (not exact) and rk < len(fi)
     if bad:
-        findings.append(Finding("monitor", "solve/solution-of-output-violates-input/%s" % ("exact" if exact else "toleranced"),
+        findings.append(Finding("monitor", KF_REDUNDANT if redundant_float else "solve/solution-of-output-violates-input/%s" % ("exact" if exact else "toleranced"),
                                 "the point %s=%s satisfies the returned solved form but an input equation has residual %s" % (names, pt_json(bad[0]), bad[1]),
                                 dict(case, point=pt_json(bad[0]))))
     elif rk != len(out_items):
-        # F18: proportional equations with non-binary float coefficients: rounding noise in sympy's elimination leaves a
-        # spurious pivot and the 'solved form' pins a free variable (strongest true variant kept above: every point of the
-        # returned form satisfies the input)
-        known = (not exact) and rk < len(fi) and len(out_items) > rk
-        findings.append(Finding("monitor", KF_REDUNDANT if known else "solve/dimension-differs",
+        findings.append(Finding("monitor", KF_REDUNDANT if redundant_float else "solve/dimension-differs",
                                 "input has rank %d but the solved form fixes %d variables (solution sets of different dimension)" % (rk, len(out_items)), case))
     hist["solve:rank=%d/n=%d" % (rk, n)] = hist.get("solve:rank=%d/n=%d" % (rk, n), 0) + 1
     # ---- validator
@@ -895,9 +903,6 @@ def prep_matrix(rng, hist, stream_id):
         args["A"], args["b"] = wrap(A, b)
     if mi:
         args["G"], args["h"] = wrap(G, h)
-    if form == "nestb" and (me > 1 or mi > 1 or True):
-        # [[b0, b1]] is flattened by the code only when len(b) == 1, which it is
-        pass
     try:
         out = guarded(S.linear_symbolic, variables=kwv, **args)
     except Exception as exc:
@@ -1165,6 +1170,7 @@ def run_shard(pid, seed, shard, ncases, tier, extra):
 
 # ------------------------------------------------------------------ known-finding witnesses (run first)
 WITNESSES = [("-1000000000000000000000001*x0 - 13 + 1000000000000000000000007*x0 > -1\nx1 > 0", KF_CANCEL),
+             ("-1000000000000000000000 + 25*x0 < -1000000000000000000000\nx1 > 0", KF_CANCEL),
              ("x0 >= 1\nx0 <= 1\nx1 > 0", KF_OPPOSITE), ("x0 > 1\nx0 < 1\nx1 > 0", KF_OPPOSITE), ("x0 >= 1\nx0 < 1\nx1 > 0", KF_OPPOSITE),
              ("(-5)/x0 = 0\nx1 > 0", KF_EMPTY), ("(-12.0)/(6.0*x0) = 1500000000000000.0\nx1 > 0", KF_EMPTY)]
 
@@ -1183,7 +1189,7 @@ def witnesses():
         cases = [] if out is None else ([out] if isinstance(out, str) else list(out))
         in_tls = [U.TextLine(l) for l in U.lines_of(w)]
         out_tls = [[U.TextLine(l) for l in U.lines_of(c)] for c in cases]
-        for pt in ([Fr(5), Fr(1)], [Fr(1), Fr(1)], [Fr(0), Fr(1)], [Fr(-1, 750000000000000), Fr(1)]):
+        for pt in ([Fr(5), Fr(1)], [Fr(1), Fr(1)], [Fr(0), Fr(1)], [Fr(-1), Fr(1)], [Fr(-1, 750000000000000), Fr(1)]):
             env = env_of(names, pt)
             a = U.sat_system(in_tls, env); b = U.sat_cases(out_tls, env)
             if a != b:
